@@ -39,7 +39,7 @@ RateStoredOK(c, o) ==
     IF ~Accepted(c) THEN o.set_err # ""
     ELSE /\ o.set_err = ""
          /\ IF Unlimited(c)
-            THEN /\ o.freq = 0                                             \* the zero frequency the command treats as unlimited
+            THEN /\ (o.freq = 0 \/ o.st_per = "0")                        \* the zero value every pacer treats as unlimited
                  /\ o.guard_without_maxworkers = TRUE                      \* ... and refuses without -max-workers
                  /\ o.guard_with_maxworkers = FALSE
             ELSE /\ o.freq = c.n /\ o.per_div = c.m /\ o.per_mod = 0
